@@ -159,7 +159,7 @@ Proof.
   change (zlen (r0 :: t0)) with (znat (List.length (r0 :: t0))). rewrite znat_leb.
   destruct (Nat.leb (List.length (r0 :: t0)) maxkeep); [apply peq_refl|].
   apply peq_bind; [apply peq_refl|]. intros ds.
-  assert (Hdep : (if c_deployed_none (set_n "DeployedAll.len" (zlen ds) env0) then None
+  assert (Hdep : (if c_deployed_none (set_n "len(DeployedAll)" (zlen ds) env0) then None
                   else match max_rev_of ds with Some d => Some (rev d) | None => None end)
                  = match max_rev_of ds with Some d => Some (rev d) | None => None end).
   { unfold c_deployed_none. env_simpl. rewrite zlen_eq0. destruct ds; reflexivity. }
@@ -270,7 +270,7 @@ Section OpsD.
                 | _ => bind (perform (KUpdate adopted resources)) (fun u => Ret (fst u))
                 end
          end)
-        (let m := set_n "arg2.len" (zlen adopted) (set_n "arg3.len" (zlen resources) env0) in
+        (let m := set_n "len(arg2)" (zlen adopted) (set_n "len(arg3)" (zlen resources) env0) in
          if c_inst_create m then perform (KCreate resources)
          else if c_inst_update m then bind (perform (KUpdate adopted resources)) (fun u => Ret (fst u))
          else Ret true).
@@ -280,7 +280,7 @@ Section OpsD.
   Qed.
 
   Lemma install_check_is fl (resources : list res) :
-    c_inst_check (set_n "Build.len" (zlen resources) (env_flags fl))
+    c_inst_check (set_n "len(Build)" (zlen resources) (env_flags fl))
     = negb (f_client_only fl) && negb (match resources with [] => true | _ => false end).
   Proof.
     unfold c_inst_check. env_simpl. unfold flag_env. env_simpl. rewrite zlen_nil_pos, andb_true_r. destruct resources; reflexivity.
@@ -305,7 +305,7 @@ Section OpsD.
        record_release (with_status rel SDeployed) ;;; Ret OOk)%prog
       (pre <- run_hooks fl rel PreInstall ;;
        if negb pre then install_fail fl rel else
-       let m := set_n "arg2.len" (zlen adopted) (set_n "arg3.len" (zlen resources) env0) in
+       let m := set_n "len(arg2)" (zlen adopted) (set_n "len(arg3)" (zlen resources) env0) in
        ok <- (if c_inst_create m then perform (KCreate resources)
               else if c_inst_update m then u <- perform (KUpdate adopted resources) ;; Ret (fst u)
               else Ret true) ;;
